@@ -627,6 +627,24 @@ func runC17(b *runner.Batch) {
 		}
 		b.Hit("decision-about-an-unlisted-key-then-registration")
 	}
+	// the list shrinks under a pending ballot: threshold-1 votes for a cheque, the Alphabet is cut down to its last two
+	// keys (new threshold 2), one more vote by a remaining key that has not voted. The votes collected now exceed the
+	// threshold without ever having been equal to it; the decision is due in that invocation (seeded change C17-8:
+	// "pay when the count hits the threshold")
+	if n >= 4 && idx%2 == 0 {
+		t := v.threshold()
+		for c := 0; c < t-1; c++ {
+			v.runBlock([]*call{v.chequeCall(c, "shrink-chq", payee, 777)})
+		}
+		nl := append([][]byte{}, v.alphabet[len(v.alphabet)-2:]...)
+		for c := 0; c < t && len(v.alphabet) > 2; c++ {
+			v.runBlock([]*call{v.alphabetUpdateCall(c, "shrink-upd", nl)})
+		}
+		if len(v.alphabet) == 2 {
+			v.runBlock([]*call{v.chequeCall(n-1, "shrink-chq", payee, 777)})
+			b.Hit("votes-jump-over-the-threshold-after-the-list-shrank")
+		}
+	}
 	ncalls := 400
 	if b.Thorough() {
 		ncalls = 50000 / (7 * 16)
